@@ -352,10 +352,24 @@ fn check_parse_one<T: NT>(chk: &Check, id: &str, s: &str) -> bool {
     let want = ref_parse(s, T::MAXV);
     let r = catch(|| s.parse::<T>().ok().map(|t| t.getw()));
     let case = || format!("parse|{}|{}", T::NAME, s);
+    // C04 is about RANGE only: "parsing fails exactly for out-of-range input". For a string that is
+    // not a decimal numeral at all it demands nothing but that an accepted result be in range (that
+    // such strings are rejected is C05's clause "accepts exactly the unsigned decimal numerals").
+    let range_only = id == "C04" && !is_numeral(s);
     match r {
-        Err(msg) => vio!(chk, id, "parse-panics", T::NAME, case(), "{:?}.parse::<{}>() panicked: {}", s, T::NAME, msg),
+        Err(msg) => {
+            if !range_only {
+                vio!(chk, id, "parse-panics", T::NAME, case(), "{:?}.parse::<{}>() panicked: {}", s, T::NAME, msg)
+            }
+        }
         Ok(g) => {
-            if g != want {
+            if range_only {
+                if let Some(v) = g {
+                    if v > T::MAXV {
+                        vio!(chk, id, "parse-yields-out-of-range-value", T::NAME, case(), "{:?}.parse::<{}>() = Ok({}), which is above {}::MAX = {}", s, T::NAME, v, T::NAME, T::MAXV);
+                    }
+                }
+            } else if g != want {
                 let rule = match (g, want) {
                     (Some(_), None) => "parse-accepts-invalid",
                     (None, Some(_)) => "parse-rejects-valid",
@@ -366,6 +380,12 @@ fn check_parse_one<T: NT>(chk: &Check, id: &str, s: &str) -> bool {
         }
     }
     want.is_some()
+}
+
+/// '+'? digit+ (ASCII digits), of any length
+fn is_numeral(s: &str) -> bool {
+    let body = s.strip_prefix('+').unwrap_or(s);
+    !body.is_empty() && body.bytes().all(|b| b.is_ascii_digit())
 }
 
 fn parsing_for<T: NT>(chk: &Check, id: &str, tier: Tier, cnt: &Counters) {
@@ -429,6 +449,67 @@ fn parsing_for<T: NT>(chk: &Check, id: &str, tier: Tier, cnt: &Counters) {
             }
             level = next;
         }
+    }
+    // the complete 7-bit ASCII alphabet (control characters, punctuation next to the digits in the
+    // code table, letters: note names, hex digits, ...): all strings up to length 3 (4 thorough)
+    {
+        let ascii_len = if tier.thorough() { 4 } else { 3 };
+        let a_tot = AtomicU64::new(0);
+        let a_acc = AtomicU64::new(0);
+        (0u8..128).into_par_iter().for_each(|c0| {
+            let mut buf = [c0, 0, 0, 0];
+            let mut t = 0u64;
+            let mut a = 0u64;
+            fn rec<T: NT>(chk: &Check, id: &str, buf: &mut [u8; 4], len: usize, max: usize, t: &mut u64, a: &mut u64) {
+                let s = std::str::from_utf8(&buf[..len]).unwrap();
+                *t += 1;
+                if check_parse_one::<T>(chk, id, s) {
+                    *a += 1;
+                }
+                if len < max {
+                    for c in 0u8..128 {
+                        buf[len] = c;
+                        rec::<T>(chk, id, buf, len + 1, max, t, a);
+                    }
+                }
+            }
+            rec::<T>(chk, id, &mut buf, 1, ascii_len, &mut t, &mut a);
+            a_tot.fetch_add(t, Ordering::Relaxed);
+            a_acc.fetch_add(a, Ordering::Relaxed);
+        });
+        // every Unicode scalar value alone, after a digit and before a digit
+        let planes: Vec<u32> = (0..0x11u32).collect();
+        planes.par_iter().for_each(|&pl| {
+            let mut t = 0u64;
+            let mut a = 0u64;
+            let mut s = String::with_capacity(8);
+            for cp in (pl << 16)..((pl + 1) << 16) {
+                if let Some(c) = char::from_u32(cp) {
+                    if c.is_ascii() {
+                        continue;
+                    }
+                    for shape in 0..3 {
+                        s.clear();
+                        if shape == 2 {
+                            s.push('1');
+                        }
+                        s.push(c);
+                        if shape == 1 {
+                            s.push('1');
+                        }
+                        t += 1;
+                        if check_parse_one::<T>(chk, id, &s) {
+                            a += 1;
+                        }
+                    }
+                }
+            }
+            a_tot.fetch_add(t, Ordering::Relaxed);
+            a_acc.fetch_add(a, Ordering::Relaxed);
+        });
+        tot += a_tot.load(Ordering::Relaxed);
+        acc += a_acc.load(Ordering::Relaxed);
+        chk.push("parsing_full_ascii", json!({"type": T::NAME, "max_len": ascii_len, "strings_incl_unicode_singletons": a_tot.load(Ordering::Relaxed)}));
     }
     // numerals around 2^k for k in {8, 16, 32, 64, 128}: a hand-rolled accumulator wraps there
     for base in ["256", "65536", "4294967296", "18446744073709551616", "340282366920938463463374607431768211456"] {
@@ -610,7 +691,7 @@ impl<M: helgoboss_midi::ShortMessage> Audit for M {
 }
 
 pub fn run_c04(chk: &Check, tier: Tier) {
-    chk.rule("every conversion into each of the six restricted integer types over its source domain (8/16-bit and newtype sources complete; 32-bit complete in thorough; wider sources over the truncation alphabet {low 16 bits} x {high-bit patterns incl. sign extension}); `new` over every repr value under catch_unwind; all strings over a 14-symbol alphabet up to length 4 (6 thorough) plus structured numerals; constants; range audit of message fields over all 2^21 triples and of encoder outputs over all 14-bit values. non-trivial = distinct (operation,input) cases whose input is OUT of range, i.e. that must be rejected");
+    chk.rule("every conversion into each of the six restricted integer types over its source domain (8/16-bit and newtype sources complete; 32-bit complete in thorough; wider sources over the truncation alphabet {low 16 bits} x {high-bit patterns incl. sign extension}); `new` over every repr value under catch_unwind; all strings over a 14-symbol alphabet up to length 4 (6 thorough), all 7-bit ASCII strings up to length 3 (4 thorough), every Unicode scalar value alone / before / after a digit, plus structured numerals; constants; range audit of message fields over all 2^21 triples and of encoder outputs over all 14-bit values. non-trivial = distinct (operation,input) cases whose input is OUT of range, i.e. that must be rejected");
     let cnt = Counters { evals: AtomicU64::new(0), out_of_range_inputs: AtomicU64::new(0), in_range_inputs: AtomicU64::new(0) };
     check_new::<U4>(chk, &cnt);
     check_new::<U7>(chk, &cnt);
@@ -709,7 +790,7 @@ fn check_display<T: NT>(chk: &Check, cnt: &Counters) {
 }
 
 pub fn run_c05(chk: &Check, tier: Tier) {
-    chk.rule("every conversion into and out of each restricted integer type judged by reference arithmetic on (sign, u128 magnitude): accepted iff in range and value preserved; parsing against a reference recogniser '+'? digit+ with value in range over all strings of a 14-symbol alphabet up to length 4 (6 thorough) plus leading-zero/boundary numerals; Display prints the decimal value and parse(display(v)) == v for every value; cmp/eq/hash agree with the integers for all pairs (U14: neighbourhoods in quick, all pairs in thorough). non-trivial = distinct (operation,input) cases whose input is IN range, i.e. whose value must be preserved");
+    chk.rule("every conversion into and out of each restricted integer type judged by reference arithmetic on (sign, u128 magnitude): accepted iff in range and value preserved; parsing against a reference recogniser '+'? digit+ with value in range over all strings of a 14-symbol alphabet up to length 4 (6 thorough), all 7-bit ASCII strings up to length 3 (4 thorough), every Unicode scalar value alone / before / after a digit, plus leading-zero/boundary numerals; Display prints the decimal value and parse(display(v)) == v for every value; cmp/eq/hash agree with the integers for all pairs (U14: neighbourhoods in quick, all pairs in thorough). non-trivial = distinct (operation,input) cases whose input is IN range, i.e. whose value must be preserved");
     let cnt = Counters { evals: AtomicU64::new(0), out_of_range_inputs: AtomicU64::new(0), in_range_inputs: AtomicU64::new(0) };
     conversions(chk, "C05", tier, &cnt);
     parsing(chk, "C05", tier, &cnt);
